@@ -39,8 +39,16 @@ SCENARIOS = {
                           matrix=[["n_null", 1], ["n_null", 1], ["o_over", 1], ["o_over", 1]]),
     "override-rewrite": dict(prep=[["o_over", 1]], target=["o_over", 2],
                              matrix=[["o_over", 2], ["o_over", 2], ["o_over", 1], ["o_over", 1], ["f_scalar", 2]]),
+    # a store that already holds results of other functions; the fault hits the write of a new value
+    "populated": dict(prep=[["h_other", 1], ["g_same", 2], ["p_part", 3]], target=["f_scalar", 1],
+                      matrix=[["f_scalar", 1], ["h_other", 1], ["g_same", 2], ["p_part", 3], ["f_scalar", 1], ["h_other", 1], ["g_same", 2],
+                              ["p_part", 3], ["f_scalar", 2], ["f_scalar", 2]], model=False),
+    # a partition merged on top of the partition returned by a nested memento call (both written during the faulted call)
+    "merged-partition": dict(prep=[], target=["p_b", 1],
+                             matrix=[["p_b", 1], ["p_b", 1], ["p_a", 1], ["p_a", 1], ["p_b", 1]], model=False),
 }
-BACKENDS = {"fs": None, "fs+cache": 1}
+# the tiny cache is smaller than any result (only memento-only entries could fit)
+BACKENDS = {"fs": None, "fs+cache": 1, "fs+cache-tiny": 0.0003}
 
 
 # storage-level description of the calls for the Lean model: fn id, override id, blob ids
@@ -158,7 +166,7 @@ def judge(sc, results, first_may_execute=True):
         k = (name, x)
         if k in seen and r["execs"] != 0:
             fails.append(dict(clause="recomputes-forever", call=r["call"], occurrence=seen[k] + 1, execs=r["execs"]))
-        if r["execs"] > 1:
+        if r["execs"] > 1 or r.get("nested_max", 0) > 1:
             fails.append(dict(clause="executes-more-than-once", call=r["call"], execs=r["execs"]))
         seen[k] = seen.get(k, 0) + 1
     return fails
@@ -255,7 +263,7 @@ def enumerate_scenario(chk, scn, backend, workers=16, use_model=True):
     shutil.rmtree(ref_root, ignore_errors=True)
     shutil.rmtree(base, ignore_errors=True)
     # correspondence with the Lean crash model: primitive sequence and per-variant outcome of the target call
-    if use_model:
+    if use_model and sc.get("model", True):
         mprims, pred = model_predictions(scn, cevents, variants)
         real_prims = [s_ for s_ in (sig_of_event(c) for c in cevents) if s_ is not None]
         if mprims != real_prims:
@@ -296,8 +304,8 @@ def main(chk, replay=None):
             shutil.rmtree(tmp, ignore_errors=True)
 
     chk.level = "proof"
-    chk.rule = ("scenarios {scalar, dedup hit, exception, 2-key partition, null with override, override rewrite} x backends "
-                "{fs, fs+cache}; for each, EVERY mutating primitive op (mkdir, open-for-write, rename, remove under the "
+    chk.rule = ("scenarios {scalar, dedup hit, exception, 2-key partition, null with override, override rewrite, populated store, "
+                "partition merged on a nested call's partition} x backends {fs, fs+cache, fs+cache smaller than any result}; for each, EVERY mutating primitive op (mkdir, open-for-write, rename, remove under the "
                 "root) recorded in a fault-free run gives the variants crash-before, ENOSPC-at-op, and for file opens "
                 "EFBIG-on-write and crash-mid-write (file left empty / half). Each variant is produced with real child "
                 "processes, then the call matrix runs in the same process (error variants) and in a fresh process. "
@@ -306,7 +314,8 @@ def main(chk, replay=None):
                         "faults are injected at audit-hook granularity (one per mutating syscall) and on file writes"]
     proof_ok = chk.build_and_audit()
     quick = chk.tier == "quick"
-    todo = [("scalar", "fs"), ("scalar", "fs+cache"), ("partition", "fs")] if quick else \
+    todo = [("scalar", "fs"), ("scalar", "fs+cache"), ("scalar", "fs+cache-tiny"), ("partition", "fs"), ("populated", "fs"),
+            ("merged-partition", "fs")] if quick else \
         [(s, b) for s in SCENARIOS for b in BACKENDS]
     reported = 0
     for scn, backend in todo:
